@@ -368,6 +368,9 @@ where
         // Add some jitter to ping pong interactions, to avoid all pings being sent at the same time
         let next_interval = || {
             let random_secs = rand::rng().random_range(1..=5);
+            #[cfg(iroh_verif)]
+            let random_secs = iroh_base::verif::choose_u64("relay.server.ping_jitter_secs", 5)
+                .map_or(random_secs, |v| v + 1);
             Duration::from_secs(random_secs) + PING_INTERVAL
         };
 
